@@ -24,7 +24,7 @@ thread_local int tl_tid = -1;  // logical tid of this OS thread (-1: not managed
 thread_local int tl_in_rt = 0; // re-entrancy guard (allocations made by the runtime itself)
 struct RtGuard { RtGuard() { ++tl_in_rt; } ~RtGuard() { --tl_in_rt; } };
 
-struct Block { uintptr_t base; size_t size; int id; bool freed; int free_tid; size_t key; };
+struct Block { uintptr_t base; size_t size; int id; bool freed; int free_tid; size_t key; int alloc_tid; };
 struct Range { uintptr_t base; size_t n; std::string name; };
 
 struct VC { uint32_t c[MAXT] = {0}; void join(const VC& o) { for (int i = 0; i < MAXT; i++) if (o.c[i] > c[i]) c[i] = o.c[i]; }
@@ -512,7 +512,7 @@ void* xalloc(size_t n, size_t al) {
   if (!p) p = al > 16 ? aligned_alloc(al, (n + al - 1) / al * al) : malloc(n < 8 ? 8 : n);
   if (!p) return nullptr;
   memset(p, 0xCD, n);
-  Block b; b.base = (uintptr_t)p; b.size = n; b.id = G_->next_block++; b.freed = false; b.free_tid = -1; b.key = key;
+  Block b; b.base = (uintptr_t)p; b.size = n; b.id = G_->next_block++; b.freed = false; b.free_tid = -1; b.key = key; b.alloc_tid = tl_tid;
   G_->blocks[b.base] = b;
   G_->live++;
   shadow_clear(b.base, n);
@@ -699,6 +699,7 @@ int status() { return gg().status; }
 std::string detail() { return gg().detail; }
 long live_tracked_blocks() { return gg().live; }
 long tracked_allocs() { return gg().next_block; }
+long live_blocks_by_threads() { long n = 0; for (auto& kv : gg().blocks) if (!kv.second.freed && kv.second.alloc_tid > 0) n++; return n; }
 uint64_t step_count() { return (uint64_t)gg().steps; }
 const Result& partial_result() { return gg().res; }
 WStats wstats() { return gg().ws; }
